@@ -41,6 +41,11 @@ StepEv(e) ==
        /\ Check(g2, "file-closed-after-" \o e.op, "closed", "open")
        /\ Check(g3, "nested-load-still-active-at-return", 1, Len(frames))
        /\ frames' = <<>> /\ open' = {} /\ flag' = e.flag /\ pc' = "done" /\ ok' = (ok /\ g1 /\ g2 /\ g3)
+    [] e.op = "strict_use" ->      \* after the load: the out-of-range values the (lenient) load met, assigned to fresh objects of
+                                   \* the same types under the session's setting - a strict session refuses every one of them
+       LET g == ~flag0 \/ e.accepted = 0 IN
+       /\ Check(g, "later-strict-use-accepts-what-the-load-met", 0, e.accepted)
+       /\ UNCHANGED vars /\ ok' = (ok /\ g)
     [] OTHER -> Say("unknown-op", "", e.op) /\ ok' = FALSE /\ UNCHANGED vars
 
 Step == /\ l <= Len(Traces[tid].events) /\ StepEv(Ev) /\ l' = l + 1 /\ UNCHANGED <<tid, flag0>>
